@@ -23,7 +23,7 @@ func randBytes(r *gen.Rand, n int) []byte {
 }
 
 func genKey(r *gen.Rand) (string, string) {
-	switch r.Intn(20) {
+	switch r.Intn(26) {
 	case 0:
 		return "", "key-empty"
 	case 1:
@@ -53,6 +53,46 @@ func genKey(r *gen.Rand) (string, string) {
 		i := strings.IndexByte(string(k), '=') - 1
 		k[i] = nextAlpha(k[i])
 		return string(k), "key-padbits"
+	case 5:
+		// a key of EVERY decoded length 0..66 (0 = the empty text: constructor panic)
+		n := r.Intn(67)
+		tag := "key-anylen-invalid"
+		if n == 16 || n == 24 || n == 32 {
+			tag = fmt.Sprintf("key-%d", n)
+		}
+		if n == 0 {
+			tag = "key-empty"
+		}
+		return base64.StdEncoding.EncodeToString(randBytes(r, n)), tag
+	case 6:
+		// a key TEXT of every length 1..70 over the alphabet and '=': almost never valid
+		n := 1 + r.Intn(70)
+		b := make([]byte, n)
+		for i := range b {
+			b[i] = (alphabet + "===")[r.Intn(67)]
+		}
+		k := string(b)
+		if d, err := base64.StdEncoding.DecodeString(k); err == nil && (len(d) == 16 || len(d) == 24 || len(d) == 32) {
+			return k, fmt.Sprintf("key-%d", len(d))
+		}
+		return k, "key-anytext-invalid"
+	case 8:
+		// a valid key text with blanks / a tab / a NUL around or inside it: not valid (only \r and \n are skipped)
+		k := base64.StdEncoding.EncodeToString(randBytes(r, gen.Pick(r, []int{16, 24, 32})))
+		switch r.Intn(4) {
+		case 0:
+			return " " + k, "key-blank-around"
+		case 1:
+			return k + " ", "key-blank-around"
+		case 2:
+			return k + "\t", "key-blank-around"
+		default:
+			i := r.Intn(len(k))
+			return k[:i] + " " + k[i:], "key-blank-around"
+		}
+	case 7:
+		// texts that decode to nothing or are only padding / blanks: non-empty, so the constructor takes them
+		return gen.Pick(r, []string{"\n", "\r\n", "\r\n\r\n", " ", "=", "==", "====", "A", "AA", "AAA", "A===", "AA==", "\t", "\x00", "key", "secret-key-of-some-length!"}), "key-degenerate"
 	default:
 		n := gen.Pick(r, []int{16, 24, 32})
 		return base64.StdEncoding.EncodeToString(randBytes(r, n)), fmt.Sprintf("key-%d", n)
@@ -77,13 +117,25 @@ func genCfg(r *gen.Rand, forceValid bool) (cfgIn, string) {
 		tag != "key-newline" && tag != "key-padbits" {
 		c.key, tag = genKey(r)
 	}
+	c.ktag = tag
 	for i := r.Intn(3); i > 0; i-- {
 		c.except = append(c.except, gen.Pick(r, exceptPool))
 	}
 	if r.Chance(1, 8) {
 		c.except = nil
 	}
-	c.mode = gen.Pick(r, []int{0, 0, 0, 0, 1, 2, 2})
+	c.mode = gen.Pick(r, []int{0, 0, 0, 0, 0, 1, 2, 2, 3, 3})
+	switch k := r.Intn(20); {
+	case k < 13:
+		c.next = 0
+	case k < 14:
+		c.next = 1
+	case k < 19:
+		c.next = 2
+	default:
+		c.next = 3
+	}
+	c.rec = r.Chance(1, 3)
 	for {
 		c.okey = base64.StdEncoding.EncodeToString(randBytes(r, gen.Pick(r, []int{16, 24, 32})))
 		a, _ := base64.StdEncoding.DecodeString(c.key)
@@ -111,7 +163,9 @@ func genValue(r *gen.Rand) string {
 		}
 		return string(b)
 	case 3:
-		return gen.Pick(r, []string{"\"quoted\"", " lead", "trail ", "semi;colon", "\"", "a b", "x\x00y", "caf\xc3\xa9", "=", "=="})
+		// (CR/LF in a value given to c.Cookie: fiber replaces them by blanks before the cookie is stored)
+		return gen.Pick(r, []string{"\"quoted\"", " lead", "trail ", "semi;colon", "\"", "a b", "x\x00y", "caf\xc3\xa9", "=", "==",
+			"line1\r\nSet-Cookie: injected=1", "a\nb", "\r", "v\r\n"})
 	case 4:
 		n := gen.Pick(r, []int{100, 255, 256, 1000, 4000})
 		b := make([]byte, n)
@@ -137,44 +191,172 @@ func ref(s, j int) piece         { return piece{kind: 'i', s: s, j: j} }
 func other(p string) piece       { return piece{kind: 'o', lit: []byte(p)} }
 func (p piece) with(m mut) piece { p.muts = append(append([]mut(nil), p.muts...), m); return p }
 
-// postKeys simulates which stored keys the handler's ops leave in the response (fasthttp SetCookie
-// replaces the first cookie with that key, Header.Add appends), so a generator can refer to them.
-func postKeys(ops []op) []string {
+// postKeys simulates which stored keys a step leaves on the wire (fasthttp SetCookie replaces the first
+// cookie with that key, Header.Add appends, ClearCookie(name) deletes and appends), so a generator can
+// refer to them: the writes in front of the middleware, the handler's, and the late ones.
+func postKeys(st step, c cfgIn) []string {
 	var keys []string
-	for _, o := range ops {
-		if o.kind == 'E' {
-			continue
-		}
-		if o.kind == 'C' {
-			found := false
+	apply := func(o op) {
+		switch o.kind {
+		case 'C':
 			for _, k := range keys {
 				if k == o.name {
-					found = true
-					break
+					return
 				}
 			}
-			if !found {
-				keys = append(keys, o.name)
-			}
-		} else {
+			keys = append(keys, o.name)
+		case 'A':
 			k := o.value
 			if i := strings.IndexByte(k, '='); i >= 0 {
 				k = k[:i]
 			}
 			keys = append(keys, strings.Trim(k, " "))
+		case 'X':
+			if o.name != "" {
+				keys = append(without(keys, o.name), o.name)
+			}
+		}
+	}
+	fail, pan := false, false
+	for _, o := range st.outerPre {
+		apply(o)
+	}
+	for _, o := range st.ops {
+		switch o.kind {
+		case 'E':
+			fail = true
+		case 'P':
+			pan = true
+		default:
+			apply(o)
+		}
+	}
+	if pan && !c.rec {
+		return nil // nothing is sent
+	}
+	if !pan {
+		for _, o := range st.outerPost {
+			apply(o)
+		}
+	}
+	if fail || pan {
+		for _, o := range st.ehOps {
+			apply(o)
 		}
 	}
 	return keys
+}
+
+// Set-Cookie texts a handler can add directly: well-formed, with attributes fasthttp's parser rejects
+// (it stops there: the attributes behind are lost when the cookie is re-rendered), nameless, empty
+func genRaw(r *gen.Rand) string {
+	if r.Chance(1, 6) {
+		return gen.Pick(r, []string{"", "=", ";", "novalue", "=onlyvalue", "a", "; Secure", "novalue; path=/; HttpOnly"," sp = v ; Path=/q", "a=\"q\"; Path=/", "a=b;;", "a==", "a=b=c; Secure", "a=;", "a=b; ",
+			"A=b; Path=/; Path=/y", "b= ; HttpOnly", "sid=\"\"", "a=\"; Secure", "token =x;Secure;HttpOnly"})
+	}
+	name := gen.Pick(r, namePool)
+	v := gen.Pick(r, []string{"one", "two", "", "x y", "tok", "se cret", "v;w"})
+	return name + "=" + v + gen.Pick(r, []string{"", "; path=/", "; path=/x; HttpOnly", "; max-age=60", "; Secure; SameSite=None",
+		"; unknown=1", "; max-age=oops", "; max-age=oops; HttpOnly; Secure", "; expires=garbage; Secure",
+		"; Secure; max-age=99999999999999999999; HttpOnly", "; samesite=bogus; HttpOnly", "; domain=; path=", "; =x",
+		"; HttpOnly=1; Secure=0", "; expires=Tue, 10 Nov 2009 23:00:00 GMT", "; max-age=-1", "; max-age=0; path=/",
+		"; Partitioned; Secure", "; note=secret-in-an-attribute"})
+}
+
+// a cookie write by code that is not behind the middleware
+func genLate(r *gen.Rand, inner []op) op {
+	name := gen.Pick(r, []string{"outer", "eh", "late", "csrf_", "sid"})
+	if len(inner) > 0 && r.Chance(1, 3) {
+		if o := inner[r.Intn(len(inner))]; o.kind == 'C' {
+			name = o.name // same stored key as a cookie of the handler: SetCookie replaces it
+		}
+	}
+	if r.Chance(1, 4) {
+		return op{kind: 'A', value: name + "=" + gen.Pick(r, []string{"late", "", "x"}) + gen.Pick(r, []string{"", "; path=/"})}
+	}
+	return op{kind: 'C', name: name, value: gen.Pick(r, []string{"late-value", "", "v", "written-in-front"}), attr: r.Intn(nAttr)}
+}
+
+// decorate adds, to the steps of a scenario, what surrounds the handler: the skip header for
+// Config.Next, cookie writes in front of the middleware / after it / in the ErrorHandler, a handler that
+// panics, ClearCookie, and (with the faulty custom pair) values the Encryptor / Decryptor choke on.
+func decorate(r *gen.Rand, c cfgIn, steps []step, keepFirst bool) []step {
+	out := make([]step, len(steps))
+	for i, st := range steps {
+		if keepFirst && i == 0 {
+			// later steps refer to this step's cookies by position: only additions that keep positions
+			if c.next == 2 && r.Chance(1, 8) {
+				st.skip = true
+			}
+			if r.Chance(1, 8) {
+				st.outerPost = append(st.outerPost, genLate(r, nil))
+			}
+			if r.Chance(1, 10) {
+				st.ehOps = append(st.ehOps, genLate(r, nil))
+				st.ops = append(append([]op(nil), st.ops...), op{kind: 'E'})
+			}
+			out[i] = st
+			continue
+		}
+		if c.next == 2 && r.Chance(2, 5) {
+			st.skip = true
+		} else if c.next != 2 && r.Chance(1, 20) {
+			st.skip = true // inert: no Next looks at it
+		}
+		if r.Chance(1, 8) {
+			st.outerPre = append(st.outerPre, genLate(r, st.ops))
+		}
+		if r.Chance(1, 6) {
+			st.outerPost = append(st.outerPost, genLate(r, st.ops))
+			if r.Chance(1, 4) {
+				st.outerPost = append(st.outerPost, genLate(r, st.ops))
+			}
+		}
+		if r.Chance(1, 5) {
+			st.ehOps = append(st.ehOps, genLate(r, st.ops))
+		}
+		ends := false
+		for _, o := range st.ops {
+			if o.kind == 'E' || o.kind == 'P' {
+				ends = true
+			}
+		}
+		if !ends && r.Chance(1, 9) {
+			st.ops = append(append([]op(nil), st.ops...), op{kind: 'P'}) // the handler panics after its writes
+		} else if !ends && r.Chance(1, 12) {
+			st.ops = append(append([]op(nil), st.ops...), op{kind: 'E'})
+		}
+		if r.Chance(1, 12) {
+			x := op{kind: 'X', name: gen.Pick(r, append([]string{"", "a", "sid"}, namePool...))}
+			pos := r.Intn(len(st.ops) + 1)
+			st.ops = append(st.ops[:pos:pos], append([]op{x}, st.ops[pos:]...)...)
+		}
+		if c.mode == 3 {
+			if r.Chance(1, 4) {
+				for j := range st.ops {
+					if st.ops[j].kind == 'C' && r.Chance(1, 2) {
+						ops := append([]op(nil), st.ops...)
+						ops[j].value = gen.Pick(r, []string{"ERR", "ERRor", "PANIC", "PANIC now", "ERR;x"}) + gen.Pick(r, []string{"", "1", "zz"})
+						st.ops = ops
+						break
+					}
+				}
+			}
+			if r.Chance(1, 7) {
+				nm := gen.Pick(r, []string{"pz", "a", "sid", "csrf_"})
+				st.srcs = append(append([]src(nil), st.srcs...), hdr(lit(nm+"="+gen.Pick(r, []string{"PANIC", "PANIC1", "PANICxyz", "ERR1"}))))
+			}
+		}
+		out[i] = st
+	}
+	return out
 }
 
 func genOps(r *gen.Rand, n int, allowRaw bool) []op {
 	var ops []op
 	for i := 0; i < n; i++ {
 		if allowRaw && r.Chance(1, 5) {
-			name := gen.Pick(r, namePool)
-			v := gen.Pick(r, []string{"one", "two", "", "x y", "tok"})
-			raw := name + "=" + v + gen.Pick(r, []string{"", "; path=/", "; path=/x; HttpOnly", "; max-age=60", "; Secure; SameSite=None", "; unknown=1", "; max-age=oops"})
-			ops = append(ops, op{kind: 'A', value: raw})
+			ops = append(ops, op{kind: 'A', value: genRaw(r)})
 		} else {
 			ops = append(ops, op{kind: 'C', name: gen.Pick(r, namePool), value: genValue(r), attr: r.Intn(nAttr)})
 		}
@@ -251,6 +433,9 @@ func allMutants(l int, lastData int) (wire []mut, direct []mut) {
 // scenario: exhaustive tampering with one issued value
 func scTamperAll(r *gen.Rand) []scase {
 	c, _ := genCfg(r, true)
+	if c.next > 1 {
+		c.next = 0
+	}
 	name := gen.Pick(r, []string{"a", "sid", "token", "b"})
 	c.except = without(c.except, name)
 	plen := gen.Pick(r, []int{0, 1, 2, 3, 4, 5, 6, 7, 8, 16, 17, 30})
@@ -269,7 +454,7 @@ func scTamperAll(r *gen.Rand) []scase {
 	case 2:
 		lastData = l - 2
 	}
-	if c.mode == 2 {
+	if c.mode >= 2 {
 		// reversed behind 'X': the last data character sits near the front
 		lastData = l - lastData
 		l++
@@ -350,8 +535,8 @@ func wireLenOf(plain string) int { return (12 + len(plain) + 16 + 2) / 3 * 4 }
 // scenario: set cookies, send them back (browser-like), set more, send back again
 func scRoundtrip(r *gen.Rand) []scase {
 	c, _ := genCfg(r, !r.Chance(1, 3))
-	ops0 := genOps(r, 1+r.Intn(5), r.Chance(1, 3))
-	keys0 := postKeys(ops0)
+	s0 := decorate(r, c, []step{{ops: genOps(r, 1+r.Intn(5), r.Chance(1, 3))}}, false)[0]
+	keys0 := postKeys(s0, c)
 	var kvs []nv
 	for j, k := range keys0 {
 		if r.Chance(5, 6) {
@@ -362,8 +547,12 @@ func scRoundtrip(r *gen.Rand) []scase {
 	if r.Chance(1, 3) && len(kvs) > 1 {
 		kvs[0], kvs[len(kvs)-1] = kvs[len(kvs)-1], kvs[0]
 	}
-	ops1 := genOps(r, r.Intn(4), r.Chance(1, 3))
-	keys1 := postKeys(ops1)
+	s1 := step{ops: genOps(r, r.Intn(4), r.Chance(1, 3))}
+	if len(kvs) > 0 {
+		s1.srcs = []src{cookieHdr(kvs)}
+	}
+	s1 = decorate(r, c, []step{s1}, false)[0]
+	keys1 := postKeys(s1, c)
 	var kvs2 []nv
 	for j, k := range keys1 {
 		kvs2 = append(kvs2, nv{k, ref(1, j)})
@@ -373,12 +562,9 @@ func scRoundtrip(r *gen.Rand) []scase {
 			kvs2 = append(kvs2, nv{k, ref(0, j)})
 		}
 	}
-	steps := []step{{ops: ops0}, {srcs: []src{cookieHdr(kvs)}, ops: ops1}}
-	if len(kvs) == 0 {
-		steps[1].srcs = nil
-	}
+	steps := []step{s0, s1}
 	if len(kvs2) > 0 {
-		steps = append(steps, step{srcs: []src{cookieHdr(kvs2)}, ops: genOps(r, r.Intn(2), false)})
+		steps = append(steps, decorate(r, c, []step{{srcs: []src{cookieHdr(kvs2)}, ops: genOps(r, r.Intn(2), false)}}, false)[0])
 	}
 	return []scase{{c, steps}}
 }
@@ -443,7 +629,7 @@ func scDups(r *gen.Rand) []scase {
 			ops1 = append(ops1, op{kind: 'C', name: nm, value: genValue(r), attr: r.Intn(nAttr)})
 		}
 	}
-	return []scase{{c, []step{{ops: ops0}, {srcs: srcs, ops: ops1}}}}
+	return []scase{{c, decorate(r, c, []step{{ops: ops0}, {srcs: srcs, ops: ops1}}, true)}}
 }
 
 // scenario: a ciphertext under another name / an excepted name, plaintexts sent as if ciphertext
@@ -470,7 +656,7 @@ func scCross(r *gen.Rand) []scase {
 	if r.Chance(1, 3) {
 		kvs = append(kvs, nv{strings.ToUpper(ex), ref(0, 0)}, nv{ex + "x", ref(0, 0)})
 	}
-	return []scase{{c, []step{{ops: ops0}, {srcs: []src{cookieHdr(kvs)}, ops: genOps(r, r.Intn(3), true)}}}}
+	return []scase{{c, decorate(r, c, []step{{ops: ops0}, {srcs: []src{cookieHdr(kvs)}, ops: genOps(r, r.Intn(3), true)}}, true)}}
 }
 
 // scenario: odd but legal Cookie header shapes
@@ -506,7 +692,7 @@ func scWeird(r *gen.Rand) []scase {
 	for len(ps) > 0 && ps[0].kind == 'x' && strings.TrimLeft(string(ps[0].lit), " \t") == "" {
 		ps = ps[1:]
 	}
-	return []scase{{c, []step{{ops: ops0}, {srcs: []src{{kind: 'H', val: ps}}}}}}
+	return []scase{{c, decorate(r, c, []step{{ops: ops0}, {srcs: []src{{kind: 'H', val: ps}}}}, true)}}
 }
 
 func generate(w *gen.Writer, o gen.Opts) {
@@ -533,6 +719,7 @@ func generate(w *gen.Writer, o gen.Opts) {
 				break
 			}
 			w.Count("kind-" + kind)
+			w.Count(cs.c.ktag)
 			emit(w, fmt.Sprintf("s%d.%d.%d", o.Seed, sc, ci), cs.c, cs.steps)
 			n++
 		}
